@@ -592,7 +592,9 @@ def plan_C07(rep, seed, tier):
     rv(rep, binp, 'enc-cutsets', seed, tier, extra=['--cap', 'query', '--thin', '3' if tier == 'quick' else '1'], tag='enc-cutsets-query')
     rv(rep, binp, 'enc-cutsets', seed, tier, extra=['--cap', 'mixq', '--thin', '3' if tier == 'quick' else '1'], tag='enc-cutsets-mixq')
     rv(rep, binp, 'query-overflow', seed, tier)
-    mcq = (MC_CHUNKING_QUICK + MC_BOM_QUICK) if tier == 'thorough' else [MC_CHUNKING_QUICK[i] for i in (0, 2, 3, 7)] + [MC_BOM_QUICK[i] for i in (0, 2, 5)] + MC_UTF16_QUERY
+    mcq = (MC_CHUNKING_QUICK + MC_BOM_QUICK + MC_UTF16_QUERY + [
+        C('UTF-16LE', 'off', 'utf8', True, 3, [4, 5, 6, 7, 64], [0x00, 0x41, 0xD8, 0xDC, 0xFF]),
+        C('UTF-16BE', 'sniff', 'utf16', False, 3, [2, 3, 4, 64], [0x00, 0x41, 0xD8, 0xDC, 0xFE, 0xFF])]) if tier == 'thorough' else [MC_CHUNKING_QUICK[i] for i in (0, 2, 3, 7)] + [MC_BOM_QUICK[i] for i in (0, 2, 5)] + MC_UTF16_QUERY
     run_mc_set(rep, binp, mcq, 'Layer I incl. the max_*_buffer_length formulas (MaxLen.tla): InvokeQueried issues every call with the formula value in '
                'every reachable state; the monitor budget conjunct (C07.insufficient) is part of NoViolation; replay of every (state, call) pair uses the REAL query and compares its value with the formula',
                export='steps')
